@@ -11,7 +11,7 @@ ID = 'C13'
 SHARDS_QUICK = 4
 TC = kp.TokenCategory
 RULE = ('Hypothesis documents (profiles "full" with 4 encodings and "agnostic" with all 6) x 8 drawn option sets each: '
-        'subset of spine ids (or omitted), subset of spine types (or omitted), include/exclude category sets of size '
+        'subset of spine ids (or omitted; as a list in any order in which an id may occur more than once), subset of spine types (or omitted), include/exclude category sets of size '
         '0..5 (or omitted), one of the encodings, and per option an "explicit default instead of omitted" flag '
         '(include=TokenCategory.all(), exclude=[] or set(), encoding=normalizedKern, spine_ids=doc.get_spine_ids(), '
         'spine_types=list(HEADERS), show_measure_numbers=False, instruments=None).  Oracle: dumps with all options must '
@@ -31,7 +31,11 @@ ASSUMPTIONS = ['kv/xform.py (P, F, T) as validated by C04-C06 and C10', 'placeho
 def option_sets(draw, ntypes, types, encs):
     o = {}
     n = ntypes
-    o['ids'] = draw(st.one_of(st.none(), st.lists(st.integers(0, n - 1), max_size=n, unique=True)))
+    # a selection is a set written as a list: in any order, and an id may be named more than once (ids collected from
+    # several sources); every third drawn list may repeat ids and be as long as, or longer than, the number of spines
+    o['ids'] = draw(st.one_of(st.none(), st.lists(st.integers(0, n - 1), max_size=n, unique=True),
+                              st.lists(st.integers(0, n - 1), max_size=n, unique=True),
+                              st.lists(st.integers(0, n - 1), min_size=min(2, n), max_size=n + 2)))
     o['tys'] = draw(st.one_of(st.none(), st.none(), st.lists(st.sampled_from(sorted(set(types))), max_size=3, unique=True)))
     o['inc'] = draw(st.one_of(st.none(), st.lists(st.sampled_from(cats.ALL), max_size=5, unique=True),
                               st.just(['CORE', 'STRUCTURAL', 'SIGNATURES', 'BARLINES']),
